@@ -213,9 +213,10 @@ def S(name, children, **kw):
     base = dict(kind="sched", name=name, children=children, w=None, T=None, sdT=1, crit=False, forever=False, h=0,
                 req=[], verbose=False)
     base.update(kw)
-    for i, c in enumerate(children):
-        c.setdefault("h", i)
-        if c["h"] == 0:
+    # ranks (hashes) of the jobs of one scheduler must be distinct, or set iteration order would depend on
+    # insertion order, i.e. on the address order of asyncio's task sets: not reproducible
+    if len({c.get("h", 0) for c in children}) < len(children):
+        for i, c in enumerate(children):
             c["h"] = i
     return base
 
